@@ -11,12 +11,14 @@ generic tree as the wildcard path (decisive).  Larger random trees come from the
 """
 from __future__ import annotations
 
+import dataclasses
+import json
 import random
 from dataclasses import dataclass, field
 from typing import Optional
 
 from xsdata.formats.dataclass.context import XmlContext
-from xsdata.formats.dataclass.models.generics import AnyElement
+from xsdata.formats.dataclass.models.generics import AnyElement, DerivedElement
 from xsdata.formats.dataclass.parsers import TreeParser, XmlParser
 from xsdata.formats.dataclass.parsers.config import ParserConfig
 
@@ -322,6 +324,7 @@ def run(ctx):
     ctx.extra["trees_replayed"] = len(cases)
     check_two_wildcards(ctx)
     xsi_primitives(ctx)
+    xsi_text(ctx)
 
 
 def xsi_primitives(ctx):
@@ -344,6 +347,86 @@ def xsi_primitives(ctx):
                 st2, obj2, _ = hb.parse(out, h, xctx, PList, "str", ParserConfig())
                 if st2 != "ok" or obj2 != obj or getattr(obj.any[0], "value", None) != val:
                     ctx.violation(f"xsi:type'd primitive xs:{tp} {lex!r} does not survive: {obj!r} -> {out} -> {obj2!r}", {"text": text})
+
+
+XSI_LEX = {"int": ("5", 5), "boolean": ("true", True), "decimal": ("1.50", None), "string": ("t", "t"), "double": ("1.5", 1.5), "long": ("-7", -7),
+           "date": ("2020-02-29", None), "dateTime": ("2020-02-29T12:00:00Z", None), "duration": ("P1DT2H", None), "hexBinary": ("0AFF", None),
+           "base64Binary": ("a2V5", None), "float": ("INF", float("inf"))}
+
+
+def xsi_text(ctx):
+    """spec/MC_XsiText.tla: typed character data of wildcard content, QName values at every placement of their
+    namespace declaration."""
+    from xml.etree.ElementTree import QName as Q
+
+    res = ctx.tlc("MC_XsiText", "run.cfg", workers=1,
+                  extra_files={"run.cfg": "SPECIFICATION Spec\nINVARIANT InvTotal\nCONSTRAINT Emit\nCHECK_DEADLOCK FALSE\n"},
+                  label="MC_XsiText types x declaration placement x namespace x wildcard", tags=("XSITEXT",), timeout=1500)
+    cases, seen = [], set()
+    for _t, c in res.printed:
+        key = json.dumps(c, sort_keys=True)
+        if key not in seen:
+            seen.add(key)
+            cases.append(c)
+    xctx = XmlContext()
+    xsd = 'xmlns:xs="http://www.w3.org/2001/XMLSchema" xmlns:xsi="http://www.w3.org/2001/XMLSchema-instance"'
+    uris = {"fresh": "urn:fresh", "ownElement": "urn:w", "sibling": "urn:sib", "none": ""}
+    for c in cases:
+        u = uris[c["uri"]]
+        if c["type"] == "QName":
+            lex, want = ("p:z", Q(u, "z")) if u else ("z", Q("z"))
+            d = f' xmlns:p="{u}"' if u else ""
+        else:
+            lex, want = XSI_LEX[c["type"]]
+            d = ""
+        at = {k: (d if c["decl"] == k else "") for k in ("self", "root")}
+        inner = f'<w:w xmlns:w="urn:w"{at["self"]} xsi:type="xs:{c["type"]}">{lex}</w:w>'
+        text = f'<R {xsd}{at["root"]}><s:sib xmlns:s="urn:sib">t</s:sib>{inner}</R>'
+        clazz = PLACEMENTS[c["placement"]]
+        for h in ("native", "lxml"):
+            ctx.case(("xsi-text", json.dumps(c, sort_keys=True), h))
+            st, obj, _w = hb.parse(text, h, xctx, clazz, "str", ParserConfig())
+            if st != "ok":
+                ctx.violation(f"xsi:type'd text failed to parse: {obj}", {"text": text, "handler": h})
+                continue
+            got = _typed_values(obj)
+            if len(got) != 1 or (want is not None and (got[0] != want or type(got[0]) is not type(want))):
+                ctx.violation(f"xsi:type=xs:{c['type']} text {lex!r} ({c['placement']} wildcard, {h}): value {got!r}, expected {want!r}", {"text": text, "handler": h})
+                continue
+            for w in ("native", "lxml"):
+                try:
+                    out = rb.render(obj, xctx, w)
+                except Exception as ex:  # noqa: BLE001
+                    ctx.violation(f"serializing xsi:type'd text xs:{c['type']} failed ({w}): {type(ex).__name__}: {ex}", {"text": text, "writer": w})
+                    continue
+                st2, obj2, _ = hb.parse(out, h, xctx, clazz, "str", ParserConfig())
+                if st2 != "ok" or obj2 != obj:
+                    ctx.violation(f"xsi:type=xs:{c['type']} text {lex!r} (namespace declared on {c['decl']}, {c['uri']}; {c['placement']} wildcard) does not survive "
+                                  f"({w} writer, {h} handler): {out} -> {repr(obj2)[:300]}", {"text": text, "serialized": out, "handler": h, "writer": w})
+
+
+def _typed_values(obj):
+    """The typed values (DerivedElement.value that is not a generic element) anywhere below obj."""
+    out = []
+
+    def walk(o):
+        if isinstance(o, DerivedElement):
+            if isinstance(o.value, (AnyElement, DerivedElement)) or dataclasses.is_dataclass(o.value):
+                walk(o.value)
+            else:
+                out.append(o.value)
+        elif isinstance(o, AnyElement):
+            for k in o.children:
+                walk(k)
+        elif isinstance(o, (list, tuple)):
+            for k in o:
+                walk(k)
+        elif dataclasses.is_dataclass(o):
+            for f in dataclasses.fields(o):
+                walk(getattr(o, f.name))
+
+    walk(obj)
+    return out
 
 
 def replay(ctx, doc):
